@@ -229,7 +229,8 @@ def c_identical(case, spell, info):
     a, b = _b(ta, spell), _b(tb, spell + 1)
     try:
         ans = a.identical(b)
-    except claripy.errors.ClaripyError:
+    except claripy.errors.ClaripyError as e:
+        info["classes"].append("identical-raised:" + type(e).__name__)  # no answer, hence no claim to check (counted)
         return []
     info["classes"].append(f"answer:{bool(ans)}")
     if not ans:
@@ -248,7 +249,14 @@ def c_identical(case, spell, info):
 def c_excavate(case, spell, info):
     t = ir.T(case["tree"])
     r = _b(t, spell)
-    res = claripy.excavate_ite(r)
+    try:
+        res = claripy.excavate_ite(r)
+    except claripy.errors.ClaripyZeroDivisionError:
+        # excavation makes a branch fully concrete and claripy folds it: a concrete division by zero, the documented exemption
+        info["classes"].append("exempt-concrete-zero-division")
+        return []
+    except Exception as e:  # noqa: BLE001
+        return [("excavate_ite:raises:" + exprcheck.exc_fingerprint(e), {"tree": ir.pretty(t), "exc": repr(e)[:200]})]
     info["nontrivial"] = res is not r and _has_ite(t)
     return _cmp(t, res, spell, "excavate_ite")
 
@@ -256,7 +264,13 @@ def c_excavate(case, spell, info):
 def c_burrow(case, spell, info):
     t = ir.T(case["tree"])
     r = _b(t, spell)
-    res = claripy.burrow_ite(r)
+    try:
+        res = claripy.burrow_ite(r)
+    except claripy.errors.ClaripyZeroDivisionError:
+        info["classes"].append("exempt-concrete-zero-division")
+        return []
+    except Exception as e:  # noqa: BLE001 - the utility is specified to return an equivalent expression for every expression
+        return [("burrow_ite:raises:" + exprcheck.exc_fingerprint(e), {"tree": ir.pretty(t), "exc": repr(e)[:200]})]
     info["nontrivial"] = res is not r and _has_ite(t)
     return _cmp(t, res, spell, "burrow_ite")
 
@@ -277,7 +291,8 @@ def c_ite_dict(case, spell, info):
     n = ir.width(i)
     d = {int(k) & ((1 << n) - 1): ir.T(v) for k, v in case["table"]}
     default = ir.T(case["default"])
-    res = claripy.ite_dict(_b(i, spell), {k: _b(v, spell) for k, v in d.items()}, _b(default, spell))
+    # the keys are handed over as generated (possibly negative integers); the reference uses their bit patterns
+    res = claripy.ite_dict(_b(i, spell), {int(k): _b(ir.T(v), spell) for k, v in case["table"]}, _b(default, spell))
     ref = default
     for k, v in d.items():
         ref = ("ite", ("eq", i, ("const", k, n)), v, ref)
@@ -378,6 +393,25 @@ def ite_heavy(draw, cfg, n=None, depth=3):
             return (draw(st.sampled_from(("bvadd", "bvsub", "bvand", "bvxor", "bvor", "bvmul"))), rec(d - 1), rec(d - 1))
         if k == 8:
             return (draw(st.sampled_from(("bvnot", "bvneg"))), rec(d - 1))
+        if k == 9:
+            # an If whose branches apply the same operator: to three or more operands (claripy flattens a+b+e) of which one or
+            # none is shared, or to different slices of one value -- where burrowing has to tell "one difference" from "two"
+            c = draw(st.sampled_from(conds))
+            leafs = lambda: draw(st.one_of(gen.bv_vars(n, cfg.get("nvars", 2)), gen.consts(n), gen.bv_vars(n, 3)))  # noqa: E731
+            j = draw(st.integers(0, 2))
+            if j <= 1:
+                op = draw(st.sampled_from(("bvadd", "bvand", "bvor", "bvxor", "bvmul")))
+                shared = leafs()
+                l1 = [leafs(), leafs(), shared]
+                l2 = [leafs(), leafs() if j else l1[1], shared]
+                if draw(st.booleans()):
+                    l1, l2 = l1[::-1], l2[::-1]
+                return ("ite", c, (op, (op, l1[0], l1[1]), l1[2]), (op, (op, l2[0], l2[1]), l2[2]))
+            big = min(n * 2, 64)
+            if big > n:
+                src = draw(gen.bv_vars(big, 2))
+                lo1, lo2 = draw(st.integers(0, big - n)), draw(st.integers(0, big - n))
+                return ("ite", c, ("extract", lo1 + n - 1, lo1, src), ("extract", lo2 + n - 1, lo2, src))
         return draw(gen.bv_tree(n, 1, cfg))
 
     return rec(depth)
@@ -474,7 +508,10 @@ def _cases_for(util, tier):
         c = {**cfg, "widths": (n,)}
         idx = draw(st.one_of(gen.bv_vars(n, 1), gen.bv_tree(n, 1, c)))
         m = (1 << n) - 1
-        keys = draw(st.lists(st.sampled_from(sorted({0, 1, 2, 3, m, m - 1, 1 << (n - 1), (1 << (n - 1)) - 1, 5 & m, 6 & m, 7 & m, 100 & m})), min_size=0, max_size=9, unique=True))
+        keys = draw(st.lists(st.sampled_from(sorted({0, 1, 2 & m, 3 & m, m, m - 1, 1 << (n - 1), (1 << (n - 1)) - 1, 5 & m, 6 & m, 7 & m, 100 & m})), min_size=0, max_size=9, unique=True))
+        if draw(st.integers(0, 2)) == 0:
+            # keys written as negative integers (x == -1 is ordinary claripy usage): same bit pattern, other Python order
+            keys = [(k - (1 << n)) if (k >> (n - 1)) and draw(st.booleans()) else k for k in keys]
         table = [(k, draw(st.one_of(gen.consts(vn), gen.bv_vars(vn, 2)))) for k in keys]
         return {"util": "ite_dict", "index": idx, "table": table, "default": draw(gen.consts(vn)), "spell": draw(spell)}
 
@@ -500,7 +537,37 @@ def _cases_for(util, tier):
             out["tree2"] = draw(anyt)
         return out
 
-    simple = lambda u: st.tuples(st.one_of(ite_heavy_any(cfg), ite_heavy_any(small), anyt), spell).map(lambda v: {"util": u, "tree": v[0], "spell": v[1]})  # noqa: E731
+    @st.composite
+    def same_op_branches(draw):
+        """If(c, op(...), op(...)) with the same operator in both branches over three or four distinct variables per branch, sharing
+        zero, one or two operands position by position; optionally below a comparison."""
+        n = draw(st.sampled_from((2, 3, 4, 8)))
+        pool = [("var", f"v{i}_{n}", n) for i in range(6)]
+        op = draw(st.sampled_from(("bvadd", "bvand", "bvor", "bvxor", "bvmul")))
+        k = draw(st.integers(3, 4))
+        left = list(draw(st.permutations(pool)))[:k]
+        right = list(left)
+        for i in draw(st.sets(st.integers(0, k - 1), min_size=1, max_size=k)):
+            right[i] = draw(st.sampled_from([p_ for p_ in pool if p_ not in left] + [left[(i + 1) % k]]))
+
+        def chain(xs):
+            t = xs[0]
+            for x_ in xs[1:]:
+                t = (op, t, x_)
+            return t
+
+        c = (draw(st.sampled_from(ir.BV_CMP)), pool[0], draw(gen.consts(n)))
+        t = ("ite", c, chain(left), chain(right))
+        j = draw(st.integers(0, 2))
+        if j == 1:
+            t = (draw(st.sampled_from(ir.BV_CMP)), t, draw(gen.consts(n)))
+        elif j == 2:
+            t = ("bvadd", t, pool[5])
+        return t
+
+    simple_anyt = st.one_of(ite_heavy_any(cfg), ite_heavy_any(small), anyt)
+    simple = lambda u: st.tuples(st.one_of(simple_anyt, simple_anyt, same_op_branches()) if u == "burrow" else simple_anyt, spell).map(lambda v: {"util": u, "tree": v[0], "spell": v[1]})  # noqa: E731
+    _old_simple = lambda u: st.tuples(st.one_of(ite_heavy_any(cfg), ite_heavy_any(small), anyt), spell).map(lambda v: {"util": u, "tree": v[0], "spell": v[1]})  # noqa: E731
     return {
         "replace_leaf": rl(), "replace_subtree": rs(), "replace_dict": rd(), "canonicalize": canon(), "identical": idn(),
         "excavate": simple("excavate"), "burrow": simple("burrow"), "ite_cases": icases(), "ite_dict": idict(),
